@@ -28,6 +28,32 @@ def listing(dag, root):
     return out
 
 
+def submit_order(dag, throttle):
+    """the order in which the real execution loop hands the instances to the
+    scheduler (every job succeeds at once), observed on a copy of the graph"""
+    import copy
+    import scripted as S
+    S.install()
+    try:
+        d2 = copy.deepcopy(dag)
+        d2._submission_throttle = throttle
+        d2.set_adapter({"type": "scripted"})
+        names = [k for k in d2.values if k != "_source"]
+        S.WORLD.reset(subs=[], sched={k: True for k in names})
+        order = []
+        for _poll in range(3 * len(names) + 3):
+            S.WORLD.events = []
+            S.WORLD.poll_code = "OK"
+            S.WORLD.poll_reports = [(k, "FINISHED") for k in names if k in d2.in_progress]
+            v = d2.execute_ready_steps()
+            order.extend(ev[1] for ev in S.WORLD.events if ev[0] == "submit")
+            if v.name != "RUNNING":
+                break
+        return order
+    finally:
+        S.uninstall()
+
+
 def main():
     mode = sys.argv[1]
     base = sys.argv[2]
@@ -59,6 +85,8 @@ def main():
                 item["ser"] = _neutral(dag, root)
                 if mode == "load":
                     item["batch"] = batch
+                if j.get("submit_order"):
+                    item["submit_order"] = submit_order(dag, j.get("throttle", 0))
                 # script texts with the real local adapter
                 if j.get("scripts"):
                     import scripted as S
